@@ -300,7 +300,9 @@ def run(ctx):
         plan = [
             (("C", "C"), (), 1, False, "all", "line"), (("C", "I"), (), 1, False, "all", "line"), (("I", "C"), (), 1, False, "all", "line"), (("I", "I"), (), 1, False, "eval", "line"),
             (("C", "C"), ("C",), 1, False, "all", "line"), (("C", "I"), ("I",), 1, False, "eval", "line"), (("C", "I"), ("C",), 1, False, "eval", "line"),
-            (("C", "C"), ("C",), 2, False, "eval", "call"), (("C", "I"), (), 2, False, "eval", "call"),
+            # two and three preemptions inside the evaluate phase, at function entries up to a stack depth (see "shallow:K")
+            (("C", "C"), ("C",), 2, False, "eval", "shallow:8"), (("C", "I"), (), 2, False, "eval", "shallow:8"), (("I", "I"), (), 2, False, "eval", "shallow:6"),
+            (("I", "I"), (), 2, False, "all", "shallow:4"), (("C", "C"), ("C",), 3, False, "eval", "shallow:4"),
             (("C", "C", "I"), (), 1, False, "eval", "call"), (("C", "C", "C"), ("C",), 1, False, "eval", "call"),
             (("C", "C"), ("C",), 1, True, "eval", "line"), (("I", "I"), (), 1, False, "eval", "call"),
             # the deep thread (3) beside a rich one: API-level switch points, higher bounds
